@@ -307,6 +307,81 @@ def pct_candidates(p):
         return {fl, fl + 1}, True
     return {h}, False
 
+# ---------------------------------------------------------------- dice with non-real outcomes
+
+def gauss_label(a, b):
+    if b == 0:
+        return str(a)
+    im = ('' if abs(b) == 1 else str(abs(b))) + 'i'
+    if a == 0:
+        return ('-' if b < 0 else '') + im
+    return '%d %s %s' % (a, '+' if b > 0 else '-', im)
+
+def gen_complex_dice(r):
+    """a sum of 2..4 terms, each a die (shifted or not) on the real or on the imaginary axis; at least one of each;
+    returns (text, exact distribution over Gaussian integers)"""
+    while True:
+        n = r.randint(2, 4)
+        terms = []
+        for _ in range(n):
+            m = r.randint(2, 8); k = r.choice([0, 0, 1, 2, (m + 1) // 2]); ax = r.random() < 0.5; neg = r.random() < 0.3
+            terms.append((m, k, ax, neg))
+        if any(t[2] for t in terms) and not all(t[2] for t in terms):
+            break
+    dist = {(0, 0): F(1)}
+    txt = ''
+    for j, (m, k, ax, neg) in enumerate(terms):
+        t = ('(d%d - %d)' % (m, k) if k else 'd%d' % m) + (' i' if ax else '')
+        txt += (('-' if neg else '') if j == 0 else (' - ' if neg else ' + ')) + (t if not (j == 0 and neg) else '(' + t + ')')
+        nd = {}
+        for (a, b), p in dist.items():
+            for face in range(1, m + 1):
+                v = (face - k) * (-1 if neg else 1)
+                key = (a, b + v) if ax else (a + v, b)
+                nd[key] = nd.get(key, 0) + p / m
+        dist = nd
+    return txt, dist
+
+def check_complex_dice(c):
+    """arithmetic on dice also denotes the distribution of the result when the outcomes are not real: the listing
+    holds every possible outcome exactly once (equal outcomes merged) with the exact probability rounded to two
+    decimals, in a total order (real part, then imaginary part)"""
+    r = c.rng
+    fixed = ['d3 + (d2 - 1) i', 'd6 + d6 + (d2 - 1) i + d6', '(d3 - 2) i + d2', 'd2 i + d2 i', 'd4 i - d4 i + d3', 'd20 + (d2 - 1) i']
+    cases = []
+    for t in fixed:
+        cases.append((t, None))
+    for _ in range(60 if c.tier == 'quick' else 600):
+        cases.append(gen_complex_dice(r))
+    outs = c.impl('dist', [sx([Sym('eval'), t, [], 0]) for t, _ in cases])
+    for (t, dist), o in zip(cases, outs):
+        c.note_case('cdice:' + t, True, 'complex-dice')
+        sh = try_parse(o)
+        rep = {'expr': t, 'layer': 'L2', 'op': 'eval'}
+        if not (isinstance(sh, list) and sh and sh[0] == b'ok'):
+            c.violation('complex-dice-crash-or-error', dict(rep, kind='impl-crash' if not (isinstance(sh, list) and sh and sh[0] == b'err') else 'impl-vs-spec', impl=o[:800]))
+            continue
+        lst = parse_listing(sh[1].decode('utf-8', 'replace'))
+        if lst is None:
+            c.violation('complex-dice-listing-shape', dict(rep, kind='impl-vs-spec', impl=o[:800]))
+            continue
+        labels = [k for k, _ in lst]
+        if len(set(labels)) != len(labels):
+            dup = sorted({k for k in labels if labels.count(k) > 1})[:5]
+            c.violation('complex-dice-outcome-listed-twice', dict(rep, kind='impl-vs-spec', impl=o[:1500], duplicated=dup))
+            continue
+        if abs(sum(h for _, h in lst) - 10000) > len(lst):
+            c.violation('complex-dice-probabilities-do-not-sum-to-1', dict(rep, kind='impl-vs-spec', impl=o[:1500]))
+            continue
+        if dist is None:
+            continue
+        exp = [(gauss_label(a, b), pct_candidates(p)[0]) for (a, b), p in sorted(dist.items())]
+        if [k for k, _ in exp] != labels:
+            c.violation('complex-dice-outcomes-or-order', dict(rep, kind='impl-vs-spec', impl=o[:1500], expected=[k for k, _ in exp][:60]))
+        elif any(h not in cand for (_, h), (_, cand) in zip(lst, exp)):
+            c.violation('complex-dice-percentage', dict(rep, kind='impl-vs-spec', impl=o[:1500]))
+
+
 # ---------------------------------------------------------------- thorough proof step
 
 CONE = ['Base/Prelude.v', 'Dist/Dice.v', 'Dist/DiceProofs.v', 'Dist/DiceDie.v', 'Dist/DiceEval.v', 'Dist/DiceSample.v',
@@ -479,7 +554,10 @@ def check(c):
                 c.violation('listing-shape', dict(rep, kind='impl-vs-spec', impl=impl_show[i], expected_len=len(exp)))
             else:
                 pv = [parse_outcome(ktxt) for ktxt, _ in lst]
-                if all(x is not None for x in pv) and any(not (a[0] < b[0] or (a[0] == b[0] and (a[2] or b[2]))) for a, b in zip(pv, pv[1:])):
+                # printed labels must not descend; equal neighbours are legitimate when two distinct outcomes differ
+                # by less than the printed precision (1 + 1/(2^64-1) and 1 + 2/(2^64-1) both print as 1): that each
+                # label is the right outcome, in the order of the exact values, is checked position by position below
+                if all(x is not None for x in pv) and any(a[0] > b[0] for a, b in zip(pv, pv[1:])):
                     c.violation('listing-not-ascending', dict(rep, kind='impl-vs-spec', impl=impl_show[i][:1500]))
                 for (ktxt, h), (k, p) in zip(lst, exp):
                     cands, tie = pct_candidates(p)
@@ -596,6 +674,8 @@ def check(c):
         c.note_case('odd:' + t, False, 'odd-spelling')
         if not (isinstance(p, list) and p and p[0] in (b'ok', b'err')):
             c.violation('odd-spelling-crash', {'expr': t, 'kind': 'impl-crash', 'impl': o})
+
+    check_complex_dice(c)
 
     c.extra['ties_or_near_ties_seen'] = ties_seen
     c.extra['stored_order_drift'] = order_drift
